@@ -385,9 +385,17 @@ func filterObs(r *Report, rule string, st Status) []Ob {
 func checkC13Constructor(p *Prog, r *Report, rMal, rAcc *Rule, vf *ssa.Function) {
 	fp := vf.Params[0]
 	var dec *ssa.Call
+	decSrc := 1
 	eachInstr(vf, func(i ssa.Instruction) {
 		if c, ok := i.(*ssa.Call); ok && "(*encoding/base64.Encoding).DecodeString" == calleeName(c.Common()) {
 			dec = c
+		}
+		/* enc.AppendDecode(buf[:0], []byte(s)): the same decoding into a
+		buffer of the caller's. */
+		if c, ok := i.(*ssa.Call); ok && "(*encoding/base64.Encoding).AppendDecode" == calleeName(c.Common()) && 3 == len(c.Common().Args) {
+			if sl, isSl := c.Common().Args[1].(*ssa.Slice); isSl && nil != sl.High && isZeroConst(sl.High) {
+				dec, decSrc = c, 2
+			}
 		}
 	})
 	c := fnName(vf)
@@ -400,7 +408,7 @@ func checkC13Constructor(p *Prog, r *Report, rMal, rAcc *Rule, vf *ssa.Function)
 	} else {
 		fromParam := false
 		prefixOK := true
-		for _, x := range valueRoots(dec.Common().Args[1], func(n string) bool { return strings.HasPrefix(n, "strings.") }) {
+		for _, x := range valueRoots(stripConv(dec.Common().Args[decSrc], true), func(n string) bool { return strings.HasPrefix(n, "strings.") }) {
 			if "param" == x.Kind && x.V == ssa.Value(fp) {
 				fromParam = true
 			}
